@@ -170,7 +170,13 @@ def run(ctx, scale=1):
             if not contains(r[1], "num" if k2 == "num" else k2, fresh_v):
                 prev = [t[3].upper() for t in toks[max(0, i - 3):i]]
                 ctxt = next((p for p in reversed(prev) if p.lower() in kw or not p[0].isalnum()), prev[-1] if prev else "START")
-                key = root_cause(new_sql, r[1], (a, a + len(fresh_text))) or "dropped:%s:after:%s" % (k2, ctxt[:12])
+                key = root_cause(new_sql, r[1], (a, a + len(fresh_text)))
+                if key is None and st.get("e") is not None and ctx.driver:
+                    # does the Lean model of make_tree predict that this written expression leaves tokens behind?
+                    ans = ctx.driver.batch([{"op": "expr", "e": st["e"]}])[0]
+                    if ans.get("drops"):
+                        key = "dropped:prefix-operator-right-of-tighter-operator"
+                key = key or "dropped:%s:after:%s" % (k2, ctxt[:12])
                 rep.count("finding", key)
                 rep.finding(key, "parse(%r) is accepted but %s is not in the tree %s" % (new_sql[:200], fresh_text, C.cdump(C.canon(r[1]))[:240]),
                             {"sql": new_sql, "dialect": st["dialect"], "fresh": fresh_v if not isinstance(fresh_v, float) else fresh_v, "kind": k2})
